@@ -193,8 +193,9 @@ def _cells_of(f, rng):
     return "", f["cells"]
 
 
-def perturb(rng, fr):
-    """returns (sub-kind, perturbed copy) -- every sub-kind except the 'same:*' ones must make the frames unequal"""
+def perturb(rng, fr, only=None):
+    """returns (sub-kind, perturbed copy) -- every sub-kind except the 'same:*' ones must make the frames unequal.
+    only: restrict the choice to these sub-kinds"""
     g = copy.deepcopy(fr)
     opts = [(2, "same:copy")]
     if g["feats"]:
@@ -216,6 +217,10 @@ def perturb(rng, fr):
         opts += [(2, "y-added")]
     if not g["feats"]:
         opts += [(2, "len")]
+    if g["feats"]:
+        opts += [(3, "name-case")]
+    if only is not None:
+        opts = [(w, k) for w, k in opts if k in only] or [(1, "same:copy")]
     sub = rng.wpick(opts)
     n = g["n"]
     if sub == "cell":
@@ -283,6 +288,11 @@ def perturb(rng, fr):
         f = rng.pick(g["feats"])
         j = rng.randint(0, len(f["names"]) - 1)
         f["names"][j] = f["names"][j] + "_x"
+        return sub, g
+    if sub == "name-case":
+        f = rng.pick(g["feats"])
+        j = rng.randint(0, len(f["names"]) - 1)
+        f["names"][j] = f["names"][j].upper() if f["names"][j].upper() != f["names"][j] else f["names"][j].lower() + "x"
         return sub, g
     if sub == "name-swap":
         f = rng.pick(g["feats"])
@@ -354,6 +364,65 @@ def gen_perturb(rng):
         return {"kind": "perturb", "sub": "nan-target", "a": B(fr), "b": B(copy.deepcopy(fr)), "lookups": [], "meta": {}}
     sub, g = perturb(rng, fr)
     return {"kind": "perturb", "sub": sub, "a": B(fr), "b": B(g), "lookups": [], "meta": {}}
+
+
+ZERO_ROW_PERTS = ["name", "name-swap", "name-case", "dict-key", "drop-feat", "y-none", "y-added", "same:copy",
+                  "same:feat-order", "same:dict-order", "same:num-rows", "cell", "nan"]
+
+
+def gen_boundary(rng):
+    """the boundaries of the quantified dimensions, hit deliberately: equality of 0-row and 1-row frames under every
+    perturbation that exists there (a 0-row frame has no cell: names, case, swaps, stype set, dict keys, target presence,
+    0 rows vs 1 row); partitions into n parts of one row; the same object repeated in a cat list; row-less / column-less
+    parts that carry the target"""
+    sub = rng.wpick([(6, "zero-rows"), (4, "one-row"), (2, "rows-0-vs-1"), (2, "n-parts-of-1"), (2, "repeat-object"),
+                     (2, "target-on-empty-part")])
+    if sub in ("zero-rows", "one-row", "rows-0-vs-1"):
+        fr = F.gen_frame(rng, n=1, featureless_p=0.1, min_feats=1, max_feats=4)
+        if rng.chance(0.5) and fr["y"] is None:
+            fr["ydtype"], fr["y"] = "float", [1.0]
+        z = slice_ix(0, 0)
+        if sub == "rows-0-vs-1":
+            return {"kind": "boundary", "sub": sub, "a": {"op": "sel", "of": B(fr), "idx": z}, "b": B(copy.deepcopy(fr)),
+                    "lookups": [], "meta": {}}
+        psub, g = perturb(rng, fr, only=ZERO_ROW_PERTS if sub == "zero-rows" else None)
+        a, b = B(fr), B(g)
+        if sub == "zero-rows":
+            a, b = {"op": "sel", "of": a, "idx": z}, {"op": "sel", "of": b, "idx": rng.pick([z, {"t": "list", "l": []}])}
+        return {"kind": "boundary", "sub": f"{sub}:{psub}", "a": a, "b": b, "lookups": [], "meta": {}}
+    if sub == "n-parts-of-1":
+        fr = F.gen_frame(rng, n=rng.randint(1, 4), featureless_p=0.1)
+        n = fr["n"]
+        parts = [{"op": "sel", "of": B(fr), "idx": rng.pick([{"t": "int", "i": i}, slice_ix(i, i + 1), {"t": "list", "l": [i - n]}])}
+                 for i in range(n)]
+        return {"kind": "boundary", "sub": sub, "a": {"op": "cat", "parts": parts, "dim": 0}, "b": B(fr), "lookups": [],
+                "meta": {}}
+    if sub == "repeat-object":
+        fr = F.gen_frame(rng, featureless_p=0.1)
+        k = rng.randint(2, 3)
+        dim = rng.pick([0, 0, 1])
+        if dim == 1:
+            fr["y"] = None
+        a = {"op": "cat", "parts": [REF(0)] * k, "dim": dim}
+        b = {"op": "cat", "parts": [B(fr)] * k, "dim": dim}
+        return {"kind": "reuse", "sub": f"repeat-object:dim{dim}", "env": [B(fr)],
+                "checks": [{"as": "rowpart", "a": a, "b": b}, {"as": "perturb", "a": REF(0), "b": B(fr)}],
+                "a": F.subst(a, [B(fr)]), "b": b, "lookups": [], "meta": {}}
+    # the target travels on a part without rows / without columns
+    fr = F.gen_frame(rng, n=rng.randint(1, 3), featureless_p=0.0)
+    fr["ydtype"], fr["y"] = "float", [float(i) for i in range(fr["n"])]
+    if rng.chance(0.5):
+        n = fr["n"]
+        parts = [{"op": "sel", "of": B(fr), "idx": slice_ix(0, 0)}, B(fr), {"op": "sel", "of": B(fr), "idx": slice_ix(n, n + 2)}]
+        return {"kind": "boundary", "sub": sub + ":rows", "a": {"op": "cat", "parts": parts, "dim": 0}, "b": B(fr),
+                "lookups": [], "meta": {}}
+    empty = {"n": fr["n"], "feats": [], "y": list(fr["y"]), "ydtype": "float", "num_rows": fr["n"]}
+    rest = dict(copy.deepcopy(fr), y=None)
+    parts = [B(empty), B(rest)]
+    if rng.chance(0.5):
+        parts.reverse()
+    return {"kind": "boundary", "sub": sub + ":cols", "a": {"op": "cat", "parts": parts, "dim": 1}, "b": B(fr),
+            "lookups": all_names(fr)[:1], "meta": {}}
 
 
 def all_names(fr):
@@ -724,7 +793,7 @@ def gen_reuse(rng):
 
 
 GENS = [(24, gen_rowpart), (18, gen_colpart), (26, gen_perturb), (6, gen_lookup), (10, gen_malformed), (8, gen_reuse),
-        (10, gen_indep)]
+        (10, gen_indep), (12, gen_boundary)]
 
 
 def exhaustive(rng):
@@ -789,7 +858,7 @@ def generate(rng, tier):
     n = 800 if tier == "quick" else 25000
     cases = [rng.wpick(GENS)(rng) for _ in range(n)]
     for c in cases:
-        if c["kind"] in ("rowpart", "colpart", "perturb", "lookup", "indep"):
+        if c["kind"] in ("rowpart", "colpart", "perturb", "lookup", "indep", "boundary"):
             c["a"], c["b"] = decorate(rng, c["a"]), decorate(rng, c["b"])
     if tier == "thorough":
         cases += exhaustive(rng)
@@ -807,7 +876,7 @@ def extra(tier, rng):
     for dt, eps in ((torch.float64, 2.0 ** -20), (torch.float32, 2.0 ** -6)):
         for b in xs:
             tol = float(atol + rtol * abs(Fr(b)))
-            for factor in (1 - eps, 1 + eps, 0.5, 2.0, 0.0):
+            for factor in (1 - eps, 1 + eps, 1.0, 0.5, 2.0, 0.0):      # just inside, just beyond, AT the tolerance
                 for sign in (1, -1):
                     tb = torch.tensor([b], dtype=dt)
                     ta = torch.tensor([b + sign * tol * factor], dtype=dt)
@@ -816,6 +885,8 @@ def extra(tier, rng):
                         margin = abs(x - z) - (atol + rtol * abs(z))       # allclose(x, z): |x - z| <= atol + rtol*|z|
                         if dt == torch.float32 and abs(margin) < Fr(tol) * Fr(1, 1000):
                             continue                                          # float32 evaluates the bound itself in float32
+                        if dt == torch.float64 and margin != 0 and abs(margin) < Fr(tol) * Fr(1, 10 ** 12):
+                            continue                                          # within the rounding of the bound in float64
                         want = margin <= 0
                         got = bool(torch.allclose(tx, tz))
                         count += 1
@@ -841,6 +912,8 @@ REQUIRED_STREAMS = [           # prefixes of kind/sub-kind; each has an expected
     "perturb/name", "perturb/boundary|perturb/met-boundary", "perturb/y-", "perturb/same:", "perturb/drop-|perturb/dict-key",
     "lookup/", "malformed/row:", "malformed/col:", "malformed/val:", "indep/same", "indep/met-widths|indep/dict-keys",
     "reuse/col", "reuse/row", "reuse/lookup-history",
+    "boundary/zero-rows:name", "boundary/zero-rows:y-", "boundary/zero-rows:same:", "boundary/one-row:", "boundary/rows-0-vs-1",
+    "boundary/n-parts-of-1", "reuse/repeat-object", "boundary/target-on-empty-part:rows", "boundary/target-on-empty-part:cols",
 ]
 
 
@@ -913,6 +986,8 @@ def run_sub(case, env, log, trace=None):
             obs["eq_ba"] = (bool(e2["v"]) if e2["ok"] else "raise:" + e2["exc"])
             obs["ne_ab"] = _try(lambda: bool(ta["v"] != tb["v"])).get("v", "raise")
             obs["neq_ab"] = _try(lambda: bool(ta["v"].__neq__(tb["v"]))).get("v", "raise")
+            obs["ne_ba"] = _try(lambda: bool(tb["v"] != ta["v"])).get("v", "raise")
+            obs["eq_dunder_ba"] = _try(lambda: bool(tb["v"].__eq__(ta["v"]))).get("v", "raise")
             obs["operands_same"] = (F.full_snapshot(ta["v"]) == snap_a and F.full_snapshot(tb["v"]) == snap_b)
     lks = []
     for nm in case["lookups"]:
@@ -1052,6 +1127,10 @@ def oracle(case, obs):
                         "the concatenations that used it", observed=obs.get("env_same"))
         return None
     kind, sub = case.get("as", case["kind"]), case["sub"]
+    if kind == "boundary":
+        kind = "perturb" if sub.split(":")[0] in ("zero-rows", "one-row", "rows-0-vs-1") else \
+            ("colpart" if sub.endswith(":cols") else "rowpart")
+        sub = "boundary:" + sub
     kd = kinds_of_expr(case["a"])
     fl = ":featureless" if kd.replace("|", "").replace("featureless", "") == "" else ""
     # --- expression a against the nested-list reference
@@ -1106,8 +1185,9 @@ def oracle(case, obs):
         want, why = F.ref_equal(ra, rb)
         if not obs.get("operands_same", True):
             return dict(key="eq-modifies", what="== modified one of its operands")
-        if isinstance(obs.get("eq_ab"), bool) and (obs.get("ne_ab") is not (not obs["eq_ab"])
-                                                   or obs.get("neq_ab") is not (not obs["eq_ab"])):
+        if isinstance(obs.get("eq_ab"), bool) and isinstance(obs.get("eq_ba"), bool) and (
+                obs.get("ne_ab") is not (not obs["eq_ab"]) or obs.get("neq_ab") is not (not obs["eq_ab"])
+                or obs.get("ne_ba") is not (not obs["eq_ba"]) or obs.get("eq_dunder_ba") is not obs["eq_ba"]):
             return dict(key="ne-inconsistent", what=f"{kind}/{sub}: a != b / a.__neq__(b) is not the negation of a == b",
                         observed={k_: obs.get(k_) for k_ in ("eq_ab", "ne_ab", "neq_ab")})
         if want is not None:
